@@ -71,9 +71,15 @@ func (o op) variant() string {
 
 var nsPaths = []string{"/d", "/d/f", "/d/h", "/d/e", "/d/e/g", "/d/new", "/nope/x", "/", "d/f"}
 
+// flagSets is the OpenFile flag alphabet of every path, in every plan. The last
+// four have the access mode O_RDONLY together with a status flag that changes
+// the file system (O_TRUNC empties an existing file, O_CREATE makes a missing
+// one) or the handle (O_APPEND): "read-only" is a statement about the whole
+// flag word, not about its access-mode bits.
 var flagSets = []int{
 	os.O_RDONLY, os.O_WRONLY, os.O_RDWR, os.O_WRONLY | os.O_APPEND, os.O_RDWR | os.O_CREATE,
 	os.O_RDWR | os.O_CREATE | os.O_EXCL, os.O_WRONLY | os.O_CREATE | os.O_TRUNC, os.O_RDWR | os.O_TRUNC,
+	os.O_RDONLY | os.O_TRUNC, os.O_RDONLY | os.O_CREATE, os.O_RDONLY | os.O_CREATE | os.O_EXCL, os.O_RDONLY | os.O_APPEND,
 }
 
 // nsCalls is the namespace alphabet (calls on a VFS).
